@@ -1,8 +1,47 @@
+(* C02 -- stratified tests: rearrangements stay within strata; tail table.  Statements only; proofs in
+   Proofs/StratProofs.v.  The 'less' and 'two-sided' entries of the stratified tail table are a known finding
+   (C05_stratified_less_two_sided_refuted, KNOWN_FINDINGS.json); the statistic options are decided by the
+   correspondence run (each recomputed from its documented formula on the rearrangement selected by the draws). *)
+From Coq Require Import ZArith QArith.
 From PV Require Import Lib.Base Model.Prng Model.Core Model.Stratified.
-Open Scope Q_scope.
+From mathcomp Require Import all_ssreflect.
+From PV Require Import Proofs.StratProofs.
+Local Open Scope nat_scope.
+
+(* permute_within_groups (used by sim_corr, stratified_permutationtest, stratified_two_sample,
+   bivariate_k_sample): for EVERY tape on which it returns, whatever the element type, the output is the input
+   read through a permutation sigma of the positions with group[sigma i] = group[i] for every i: nothing ever
+   moves between strata, singleton strata included *)
+Theorem C02_within_group_permutation_stays_in_strata :
+  forall (T : Type) (x0 : T) (x : seq T) (g : seq Z) t y t', size x = size g ->
+  permute_within_groups x0 x g t = Ok (y, t') ->
+  exists sigma, [/\ perm_eq sigma (iota 0 (size g)), stratum_ok g sigma & y = [seq nth x0 x i | i <- sigma]].
+Proof. exact pwg_within_strata. Qed.
+Print Assumptions C02_within_group_permutation_stays_in_strata.
+
+(* it acts on positions: the same tape moves any two variables on the same units identically (shared draws) *)
+Theorem C02_within_group_permutation_acts_on_positions :
+  forall (T : Type) (x0 : T) (x : seq T) (g : seq Z) t, size x = size g ->
+  permute_within_groups x0 x g t =
+  match permute_within_groups 0%nat (iota 0 (size g)) g t with
+  | Ok st => Ok ([seq nth x0 x i | i <- st.1], st.2)
+  | Err e => Err e
+  end.
+Proof. exact pwg_acts_on_positions. Qed.
+Print Assumptions C02_within_group_permutation_acts_on_positions.
+
+(* the 'greater' entry of the stratified tail table is the textbook (H+c)/(reps+c) *)
 Theorem C02_greater_tail_is_textbook : forall hits reps plus1,
-  strat_pvalue Greater hits reps plus1 == perm_pvalue (cc plus1) hits reps.
-Proof.
-  intros. unfold strat_pvalue, perm_pvalue. unfold Qdiv. ring.
-Qed.
+  (strat_pvalue Greater hits reps plus1 == perm_pvalue (cc plus1) hits reps)%Q.
+Proof. intros. unfold strat_pvalue, perm_pvalue, Qdiv. ring. Qed.
 Print Assumptions C02_greater_tail_is_textbook.
+
+(* bivariate_k_sample and simulate_ts_dist are one-sided by design: (c + #{dist >= observed})/(c + reps) *)
+Theorem C02_ksample_pvalue_is_textbook : forall tst d plus1,
+  ksample_pvalue tst d plus1 = perm_pvalue (cc plus1) (count_ge tst d) (length d).
+Proof. reflexivity. Qed.
+Print Assumptions C02_ksample_pvalue_is_textbook.
+
+Example C02_nonvacuous :
+  permute_within_groups 0%Q [:: 1; 2; 3; 4; 5]%Q [:: 7; 8; 7; 8; 7]%Z [:: 2; 0; 0; 1; 0]%nat = Ok ([:: 5; 4; 3; 2; 1]%Q, [::]).
+Proof. vm_compute. reflexivity. Qed.
